@@ -228,6 +228,11 @@ def impl(case):
                     ge, gn = grid
                     vals = np.arange(1.0, len(ge) * len(gn) + 1).reshape(len(gn), len(ge))
                     ds = xr.Dataset({"v": (("y", "x"), vals)}, coords={"x": np.array(ge), "y": np.array(gn)})
+                    if (len(ge) + len(gn)) % 2:
+                        # the same grid built coordinates-first (or after Dataset arithmetic): Dataset.dims is then registered as
+                        # (x, y) although the variable is (y, x) - the variable's own dims are what counts
+                        ds = xr.Dataset(coords={"x": np.array(ge), "y": np.array(gn)})
+                        ds["v"] = (("y", "x"), vals)
                     out = vd.convexhull_mask(dc, grid=ds, projection=f)
                     blank = np.isnan(out.v.values)
                     if not np.array_equal(blank, ~arr) or not np.array_equal(out.v.values[~blank], vals[~blank]):
